@@ -119,7 +119,15 @@ func (m *model) lockedFor(v uint64) []int {
 func (m *model) valid(o Op) bool {
 	switch o.K {
 	case "startsub":
-		return (o.C == 1 || o.C == 2) && m.watched(0) && m.ch[o.C].status == stNever && o.V <= 8
+		if !(o.C == 1 || o.C == 2) || !m.watched(0) {
+			return false
+		}
+		// watching a de-registered sub-channel again: with the last state the
+		// client had published for it, or its successor
+		if m.ch[o.C].status == stStopped {
+			return o.V == m.ch[o.C].newest || o.V == m.ch[o.C].newest+1
+		}
+		return m.ch[o.C].status == stNever && o.V <= 8
 	case "stopsub", "pubs":
 		return (o.C == 1 || o.C == 2) && m.watched(o.C)
 	case "pubp":
@@ -162,6 +170,9 @@ func (m *model) enabled() []Op {
 	for j := 1; j <= 2; j++ {
 		if m.watched(0) && m.ch[j].status == stNever {
 			ops = append(ops, Op{K: "startsub", C: j})
+		}
+		if m.watched(0) && m.ch[j].status == stStopped {
+			ops = append(ops, Op{K: "startsub", C: j, V: m.ch[j].newest})
 		}
 	}
 	for j := 1; j <= 2; j++ {
@@ -218,6 +229,11 @@ func (m *model) apply(o Op) *expect {
 	}
 	switch o.K {
 	case "startsub":
+		if m.ch[o.C].status == stStopped {
+			// a watched channel is refuted with its newest published
+			// transaction; the archive of the earlier de-registration is history
+			e.class("startsub:again")
+		}
 		m.ch[o.C] = chModel{status: stWatched, first: o.V, newest: o.V}
 		if m.isLocked(o.C) {
 			e.class("startsub:already-locked")
